@@ -142,6 +142,60 @@ func init() {
 		"verifSleep": func(e *Exec, t *Thread, a []Value, g bool) (Value, bool) {
 			return e.sleep(t, e.toInt(a[0], types.Typ[types.Int64]), g)
 		},
+		"verifKind": func(e *Exec, t *Thread, a []Value, g bool) (Value, bool) {
+			k := 0
+			switch v := e.ifaceTarget(a[0]).(type) {
+			case *term.T:
+				tt := e.ifaceElemType(a[0])
+				switch {
+				case v.Sort.K == term.Bool:
+					k = 1
+				case v.Sort.K == term.FP:
+					k = 4
+				case isSigned(tt):
+					k = 3
+				default:
+					k = 2
+				}
+			case *Str:
+				k = 5
+			case *Struct:
+				k = 6
+			}
+			return done(e.C.BVConst(64, uint64(k)))
+		},
+		"verifGetF32": func(e *Exec, t *Thread, a []Value, g bool) (Value, bool) {
+			return done(e.ifaceTarget(a[0]).(*term.T))
+		},
+		"verifGetU64": func(e *Exec, t *Thread, a []Value, g bool) (Value, bool) {
+			v := e.ifaceTarget(a[0]).(*term.T)
+			if v.Sort.K == term.Bool {
+				return done(e.C.Ite(v, e.C.BVConst(64, 1), e.C.BVConst(64, 0)))
+			}
+			if isSigned(e.ifaceElemType(a[0])) {
+				return done(e.C.SExt(v, 64))
+			}
+			return done(e.C.ZExt(v, 64))
+		},
+		"verifSetF32": func(e *Exec, t *Thread, a []Value, g bool) (Value, bool) {
+			e.store(a[0].(Iface).V.(Ptr), a[1])
+			return done(nil)
+		},
+		"verifSetU64": func(e *Exec, t *Thread, a []Value, g bool) (Value, bool) {
+			cur := e.ifaceTarget(a[0]).(*term.T)
+			v := a[1].(*term.T)
+			var nv *term.T
+			if cur.Sort.K == term.Bool {
+				nv = e.C.Eq(e.C.Extract(v, 0, 0), e.C.BVConst(1, 1))
+			} else {
+				nv = e.C.Extract(v, cur.Sort.W-1, 0)
+			}
+			e.store(a[0].(Iface).V.(Ptr), nv)
+			return done(nil)
+		},
+		"verifSame": func(e *Exec, t *Thread, a []Value, g bool) (Value, bool) {
+			return done(e.sameBits(e.ifaceTarget(a[0]), e.ifaceTarget(a[1])))
+		},
 		"verifFail": func(e *Exec, t *Thread, a []Value, g bool) (Value, bool) {
 			panic(pathEnd{kind: "assert", detail: e.strArg(a[0]), site: e.callerPos(t)})
 		},
@@ -296,6 +350,41 @@ func init() {
 			return done(Ptr{})
 		},
 
+		"time.Date": func(e *Exec, t *Thread, a []Value, g bool) (Value, bool) {
+			c := e.C
+			for _, z := range a[3:7] {
+				if zt := z.(*term.T); !zt.IsConst() || zt.Val != 0 {
+					e.unsupported("time.Date with a non-zero clock part")
+				}
+			}
+			y, m, d := a[0].(*term.T), a[1].(*term.T), a[2].(*term.T)
+			k := func(v uint64) *term.T { return c.BVConst(64, v) }
+			rem := func(x *term.T, n uint64) *term.T { return c.Bin(term.OpSRem, x, k(n)) }
+			leap := c.BAnd(c.Eq(rem(y, 4), k(0)), c.BOr(c.BNot(c.Eq(rem(y, 100), k(0))), c.Eq(rem(y, 400), k(0))))
+			dim := k(31)
+			for _, mm := range []uint64{4, 6, 9, 11} {
+				dim = c.Ite(c.Eq(m, k(mm)), k(30), dim)
+			}
+			dim = c.Ite(c.Eq(m, k(2)), c.Ite(leap, k(29), k(28)), dim)
+			valid := c.BAnd(c.BAnd(c.Cmp(term.OpSLe, k(1), m), c.Cmp(term.OpSLe, m, k(12))),
+				c.BAnd(c.Cmp(term.OpSLe, k(1), d), c.Cmp(term.OpSLe, d, dim)))
+			// exact on valid civil dates; otherwise some different date (day+1): enough for round-trip validity tests
+			tt := e.World.Pkgs["time"].Type("Time").Type()
+			st := e.zero(tt).(*Struct)
+			st.F[0] = y
+			st.F[1] = c.Bin(term.OpOr, c.Bin(term.OpShl, m, k(32)), c.Bin(term.OpAnd, c.Ite(valid, d, c.Bin(term.OpAdd, d, k(1))), k(0xffffffff)))
+			return done(st)
+		},
+		"(time.Time).Year": func(e *Exec, t *Thread, a []Value, g bool) (Value, bool) {
+			return done(a[0].(*Struct).F[0])
+		},
+		"(time.Time).Month": func(e *Exec, t *Thread, a []Value, g bool) (Value, bool) {
+			return done(e.C.Bin(term.OpAShr, a[0].(*Struct).F[1].(*term.T), e.C.BVConst(64, 32)))
+		},
+		"(time.Time).Day": func(e *Exec, t *Thread, a []Value, g bool) (Value, bool) {
+			return done(e.C.SExt(e.C.Extract(a[0].(*Struct).F[1].(*term.T), 31, 0), 64))
+		},
+
 		"reflect.TypeOf": func(e *Exec, t *Thread, a []Value, g bool) (Value, bool) {
 			iv := a[0].(Iface)
 			if iv.T == nil {
@@ -361,6 +450,50 @@ func init() {
 		"strings.Clone":              func(e *Exec, t *Thread, a []Value, g bool) (Value, bool) { return done(a[0]) },
 		"internal/stringslite.Clone": func(e *Exec, t *Thread, a []Value, g bool) (Value, bool) { return done(a[0]) },
 	}
+}
+
+// ifaceTarget loads the value an interface holding a pointer points to.
+func (e *Exec) ifaceTarget(v Value) Value {
+	iv := v.(Iface)
+	p, ok := iv.V.(Ptr)
+	if !ok {
+		return iv.V
+	}
+	return e.load(p)
+}
+
+func (e *Exec) ifaceElemType(v Value) types.Type {
+	iv := v.(Iface)
+	if pt, ok := iv.T.Underlying().(*types.Pointer); ok {
+		return pt.Elem()
+	}
+	return iv.T
+}
+
+// sameBits: deep equality with floats compared as SMT '=' (all NaNs equal, +0 != -0).
+func (e *Exec) sameBits(a, b Value) *term.T {
+	switch x := a.(type) {
+	case *term.T:
+		return e.C.Eq(x, b.(*term.T))
+	case *Struct:
+		y := b.(*Struct)
+		r := e.C.True
+		for i := range x.F {
+			r = e.C.BAnd(r, e.sameBits(x.F[i], y.F[i]))
+		}
+		return r
+	case *Array:
+		y := b.(*Array)
+		r := e.C.True
+		for i := range x.E {
+			r = e.C.BAnd(r, e.sameBits(x.E[i], y.E[i]))
+		}
+		return r
+	case *Str:
+		return e.strEq(x, b.(*Str))
+	}
+	e.unsupported("verifSame on %T", a)
+	return nil
 }
 
 func (e *Exec) numError(tag string) Value {
